@@ -334,12 +334,16 @@ def rel2Case (a b : Gen.Toast.Rel) (mode : Nat) : Case :=
   let ptrs := pa ++ pb ++ pa
   let storedIn (lay : Layout) (v : ToastValue) : Bool := !(lay.liveRows.filter fun r => r.id == v.id).isEmpty
   let sv (lay : Layout) (v : ToastValue) : String := if storedIn lay v then "s" ++ hexOf v.content.original else "~"
-  let spec := joinWith ";" (avals.map (sv a.lay) ++ bvals.map (sv blay) ++ avals.map (sv a.lay))
+  -- B's left-over values keep their own ids, which can coincide with an id taken over from A: two values of ONE relation
+  -- with the same chunk_id cannot occur in PostgreSQL (the Spec is silent there, as in `toastties`), so is this family
+  let bids := bvals.map (·.id)
+  let distinctB := bids.eraseDups.length == bids.length
+  let spec := if distinctB then joinWith ";" (avals.map (sv a.lay) ++ bvals.map (sv blay) ++ avals.map (sv a.lay)) else "-"
   let shared := (bvals.filter fun v => idsA.contains v.id).length
   let tags := [s!"mode={mode}", s!"shared_ids={if shared == 0 then "0" else if shared ≤ 3 then "1..3" else ">3"}",
                s!"valsA={if avals.length ≤ 1 then "1" else "2+"}", s!"valsB={if bvals.length ≤ 1 then "1" else "2+"}"] ++
               (if a.hasHoles || b.hasHoles then ["holes=1"] else ["holes=0"]) ++
-              (if a.midUnused || b.midUnused then ["midunused=1"] else []) ++ ["nt"]
+              (if a.midUnused || b.midUnused then ["midunused=1"] else []) ++ (if distinctB then [] else ["dupid-spec-silent"]) ++ ["nt"]
   { tags, model := rel2Model mode relA relB fileA fileB ptrs, spec,
     args := [toString mode, toString relA, hexRle fileA, toString relB, hexRle fileB, hexRle ptrs] }
 
